@@ -2,34 +2,12 @@
    of the right shape whose entry (i,j) / (x,i,j) is the point-distance function applied to row i (of block x)
    and row j; over R the point function is  sum_k (a_k - b_k)^2  (any ND, and ND = 3) resp. its square root. *)
 From Coq Require Import Reals Lra Psatz List ZArith QArith Lia Arith.
-From Molli Require Import Common.Field3 Common.Field3R Model.Dist.
+From Molli Require Import Common.Field3 Common.Field3R Common.FlatNth Model.Dist.
 Import ListNotations.
 
 (* ------------------------------------------------------------------ structure: any F, any point function *)
 Section Structure.
 Context {F : Type}.
-
-Lemma flat_map_uniform_length {A} (g : A -> list F) (n : nat) (l : list A) :
-  (forall a, In a l -> length (g a) = n) -> length (flat_map g l) = (length l * n)%nat.
-Proof.
-  induction l as [|a l IH]; intros H; simpl; [reflexivity|].
-  rewrite app_length, IH by (intros; apply H; now right).
-  rewrite (H a) by now left. reflexivity.
-Qed.
-
-Lemma flat_map_uniform_nth {A} (g : A -> list F) (n : nat) (da : A) (d : F) (l : list A) :
-  (forall a, In a l -> length (g a) = n) ->
-  forall i k, (i < length l)%nat -> (k < n)%nat ->
-  nth (i * n + k) (flat_map g l) d = nth k (g (nth i l da)) d.
-Proof.
-  induction l as [|a l IH]; intros H i k Hi Hk; simpl in Hi; [lia|].
-  assert (Ha : length (g a) = n) by (apply H; now left).
-  destruct i as [|i]; simpl.
-  - apply app_nth1. lia.
-  - rewrite app_nth2 by lia. rewrite Ha.
-    replace (n + i * n + k - n)%nat with (i * n + k)%nat by lia.
-    apply IH; [intros; apply H; now right | lia | exact Hk].
-Qed.
 
 Variable f : vec F -> vec F -> F.
 
